@@ -83,7 +83,7 @@ def bfs_tree(g):
     return depth, parent, order
 
 
-def replay(g, make_adapter, nproc=None, split_min=48, edge_filter=None, max_devs=200):
+def replay(g, make_adapter, nproc=None, split_min=48, edge_filter=None, max_devs=200, lookahead=0):
     """Execute every edge of g.  Returns dict(edges=, nodes=, deviations=[...], crashes=[...])."""
     depth, parent, order = bfs_tree(g)
     maxd = max(depth.values()) if depth else 0
@@ -126,7 +126,11 @@ def replay(g, make_adapter, nproc=None, split_min=48, edge_filter=None, max_devs
                 # reported by the task that owns this edge; the subtree is not explored
                 return logpath
 
-        def explore(n, rec):
+        def explore(n, rec, path, budget):
+            """rec: continue below tree edges; budget: how many more levels to continue below
+            NON-tree edges (the implementation may hold state the specification does not have -
+            memo tables, caches - so two histories that meet in one specification state are both
+            continued for `lookahead` steps)."""
             for ei, (dst, lab) in enumerate(g.out.get(n, [])):
                 if edge_filter and not edge_filter(g.nodes[n], g.nodes[dst], lab):
                     continue
@@ -136,11 +140,16 @@ def replay(g, make_adapter, nproc=None, split_min=48, edge_filter=None, max_devs
                     code = 0
                     try:
                         devs = adapter.step(g.nodes[n], g.nodes[dst], lab)
-                        emit({'e': 1, 'nt': adapter.nontrivial(g.nodes[dst], lab)})
+                        emit({'e': 1, 'nt': adapter.nontrivial(g.nodes[dst], lab), 'la': budget is not None})
                         if devs:
-                            emit({'dev': devs, 'src': n, 'ei': ei, 'dst': dst})
+                            emit({'dev': devs, 'src': n, 'ei': ei, 'dst': dst, 'path': path + [(n, ei)]})
+                        elif budget is not None:
+                            if budget > 1:
+                                explore(dst, False, path + [(n, ei)], budget - 1)
                         elif rec and parent.get(dst) == (n, ei):
-                            explore(dst, True)
+                            explore(dst, True, path + [(n, ei)], None)
+                        elif rec and lookahead > 0:
+                            explore(dst, False, path + [(n, ei)], lookahead)
                     except BaseException as exc:      # harness failure inside the adapter
                         import traceback
                         emit({'harness': ''.join(traceback.format_exception(
@@ -149,8 +158,8 @@ def replay(g, make_adapter, nproc=None, split_min=48, edge_filter=None, max_devs
                     os._exit(code)
                 _, status = os.waitpid(pid, 0)
                 if status != 0 and not (os.WIFEXITED(status) and os.WEXITSTATUS(status) == 3):
-                    emit({'crash': status, 'src': n, 'ei': ei, 'dst': dst})
-        explore(node, recurse)
+                    emit({'crash': status, 'src': n, 'ei': ei, 'dst': dst, 'path': path + [(n, ei)]})
+        explore(node, recurse, tree_path(node), None)
         log.close()
         return logpath
 
@@ -167,10 +176,13 @@ def replay(g, make_adapter, nproc=None, split_min=48, edge_filter=None, max_devs
                 except ValueError:
                     continue
                 if 'e' in r:
+                    if r.get('la'):
+                        res['lookahead_steps'] = res.get('lookahead_steps', 0) + 1
+                        continue
                     res['edges'] += 1
                     res['nontrivial'] += 1 if r.get('nt') else 0
                 elif 'dev' in r:
-                    key = (r['src'], r['ei'])
+                    key = (r['src'], r['ei'], tuple(map(tuple, r.get('path', []))) if len(r.get('path', [])) and r['path'] != [list(x) for x in tree_path(r['src'])] + [[r['src'], r['ei']]] else ())
                     if key not in seen:
                         seen.add(key)
                         res['deviations'].append(r)
@@ -188,10 +200,19 @@ def replay(g, make_adapter, nproc=None, split_min=48, edge_filter=None, max_devs
     return res
 
 
-def path_labels(g, res, src, ei):
+def path_labels(g, res, src, ei, path=None):
     """Action labels from the initial state to (and including) edge (src, ei)."""
+    if path:
+        return [g.out[s][e][1] for (s, e) in path]
     labs = []
     for (s, e) in res['tree_path'](src):
         labs.append(g.out[s][e][1])
     labs.append(g.out[src][ei][1])
     return labs
+
+
+def path_edges(res, d):
+    """(src, edge index) pairs from the initial state to the deviating edge."""
+    if d.get('path'):
+        return [tuple(x) for x in d['path']]
+    return res['tree_path'](d['src']) + [(d['src'], d['ei'])]
